@@ -134,6 +134,12 @@ func TestVerifC09(t *testing.T) {
 				raw.WriteString("\r\n")
 			}
 			fp.addRequest(c.id, c.user, raw.Bytes(), nil)
+			if i%5 == 3 {
+				if fp.repeatUserHeader == nil {
+					fp.repeatUserHeader = map[string]bool{}
+				}
+				fp.repeatUserHeader[c.id] = true
+			}
 			reqs = append(reqs, c)
 		}
 		var ids []string
